@@ -107,6 +107,11 @@ func (c Cfg) String() string {
 //	finish    the withheld body (the response is read)
 //	ws        WebSocket handshake (101 is read)
 //	wsmsg     one masked text message; its echo is read
+//	wsopen    open + ws in one event (the C14 part's opening action)
+//	wsburst   two masked text messages in one write; both echoes are read, in order
+//	wsping    masked ping; the pong is read
+//	wssrvclose a text message whose handler closes the connection from the server side (no close
+//	          frame); the end of the stream is read
 //	wsclose   masked close frame (1000); the reply and the end of the stream are read
 //	pclose    the peer closes its socket
 //	phalf     the peer shuts down its sending direction and reads to the end of the stream
@@ -256,21 +261,22 @@ func (l *listener) Addr() net.Addr { return fakeAddr{} }
 // ---------------------------------------------------------------------------------------------
 
 type conn struct {
-	id      int
-	cli     *net.UnixConn
-	br      *bufio.Reader
-	srv     net.Conn // kept reachable: engine.conns stores the pointer as bytes (no GC reference)
-	srvIno  string
-	state   string // http | partial | ws
-	half    string // A: blocking reader goroutine, B: poller, T: transferred from A to the poller
-	open    bool   // open from the harness's point of view (neither side has closed)
-	cliOpen bool   // the harness still holds its descriptor
-	nreq    int
-	partTag string
-	nmsg    int
-	rxBytes int // response bytes received on this connection
-	isFill  bool
-	endedBy string // "peer": the harness closed first; "server": the peer read the end of the stream
+	id       int
+	cli      *net.UnixConn
+	br       *bufio.Reader
+	srv      net.Conn // kept reachable: engine.conns stores the pointer as bytes (no GC reference)
+	srvIno   string
+	state    string // http | partial | ws
+	half     string // A: blocking reader goroutine, B: poller, T: transferred from A to the poller
+	open     bool   // open from the harness's point of view (neither side has closed)
+	cliOpen  bool   // the harness still holds its descriptor
+	nreq     int
+	partTag  string
+	nmsg     int
+	rxBytes  int // response bytes received on this connection
+	isFill   bool
+	upgraded bool   // the peer read the 101
+	endedBy  string // "peer": the harness closed first; "server": the peer read the end of the stream
 }
 
 type world struct {
@@ -279,7 +285,6 @@ type world struct {
 	res    *Result
 	engine *nbhttp.Engine
 	ln     *listener
-	up     *websocket.Upgrader
 	conns  map[int]*conn
 	all    []*conn
 	trace  bool
@@ -297,6 +302,31 @@ type world struct {
 
 	stopPanic string
 	t0        time.Time
+
+	cb    map[int]*cbLog // WebSocket callback logs per connection id (under mu)
+	cbSeq int
+}
+
+// cbLog is what the WebSocket callbacks of one connection did, in the order they did it.
+type cbLog struct {
+	ev      []string // "open<", "open>", "msg<payload", "msg>", "close"
+	inMsg   int
+	inOpen  bool
+	overlap string
+	early   string // a message callback entered before the open callback had returned
+	late    string // a callback after the close callback
+	closes  int
+	sent    []string // payloads the peer sent as data messages, in wire order
+	async   bool
+}
+
+func (w *world) cbOf(id int) *cbLog {
+	l := w.cb[id]
+	if l == nil {
+		l = &cbLog{}
+		w.cb[id] = l
+	}
+	return l
 }
 
 func (w *world) logf(format string, a ...interface{}) {
@@ -422,7 +452,9 @@ func (w *world) start() error {
 		_, _ = rw.Write(WantBody(tag, rb, n))
 	})
 	mux.HandleFunc("/ws", func(rw http.ResponseWriter, r *http.Request) {
-		if _, err := w.up.Upgrade(rw, r, nil); err != nil {
+		id, _ := strconv.Atoi(r.Header.Get("X-Conn"))
+		// one Upgrader per request, as nbio's own examples do: its callbacks know the connection
+		if _, err := w.newUpgrader(id).Upgrade(rw, r, nil); err != nil {
 			w.mu.Lock()
 			w.upgErrs = append(w.upgErrs, err.Error())
 			w.mu.Unlock()
@@ -466,8 +498,18 @@ func (w *world) start() error {
 		w.closes++
 		w.mu.Unlock()
 	})
+	w.engine = e
+	if err := e.Start(); err != nil {
+		return err
+	}
+	return nil
+}
+
+// newUpgrader builds the Upgrader for connection id: echo handler, callback log.
+func (w *world) newUpgrader(id int) *websocket.Upgrader {
+	cfg := w.c.Cfg
 	u := websocket.NewUpgrader()
-	u.Engine = e
+	u.Engine = w.engine
 	u.KeepaliveTime = 10 * time.Minute
 	u.BlockingModTrasferConnToPoller = cfg.Transfer
 	u.BlockingModAsyncWrite = cfg.Async
@@ -475,15 +517,59 @@ func (w *world) start() error {
 	// long after Conn.Close() (default 100 ms). 1 ms keeps it well inside the observation window of
 	// the early-exit rules (window()).
 	u.BlockingModAsyncCloseDelay = time.Millisecond
-	u.OnMessage(func(c *websocket.Conn, mt websocket.MessageType, data []byte) {
-		_ = c.WriteMessage(mt, data)
-	})
-	w.up = u
-	w.engine = e
-	if err := e.Start(); err != nil {
-		return err
+	note := func(f func(l *cbLog)) {
+		w.mu.Lock()
+		f(w.cbOf(id))
+		w.mu.Unlock()
 	}
-	return nil
+	u.OnOpen(func(c *websocket.Conn) {
+		note(func(l *cbLog) { l.ev = append(l.ev, "open<"); l.inOpen = true })
+		// a handler takes its time: whatever may overtake it gets the chance (the peer has the 101
+		// already - Upgrade sends it before it calls the open handler - and sends its next frame
+		// at once)
+		if w.caps.Own == "c14" {
+			Nap(time.Millisecond)
+		} else {
+			runtime.Gosched()
+		}
+		note(func(l *cbLog) { l.ev = append(l.ev, "open>"); l.inOpen = false })
+	})
+	u.OnMessage(func(c *websocket.Conn, mt websocket.MessageType, data []byte) {
+		pl := string(data)
+		note(func(l *cbLog) {
+			if l.closes > 0 && l.late == "" {
+				l.late = "message callback (" + short(data) + ") entered after the close callback"
+			}
+			if (l.inOpen || len(l.ev) < 2) && l.early == "" {
+				l.early = "message callback (" + short(data) + ") entered before the open callback had returned"
+			}
+			if l.inMsg > 0 && l.overlap == "" {
+				l.overlap = "message callback (" + short(data) + ") entered while another one was running"
+			}
+			l.inMsg++
+			l.ev = append(l.ev, "msg<"+pl)
+		})
+		runtime.Gosched()
+		if strings.HasPrefix(pl, "close-me") {
+			_ = c.Close()
+		} else {
+			_ = c.WriteMessage(mt, data)
+		}
+		note(func(l *cbLog) { l.inMsg--; l.ev = append(l.ev, "msg>") })
+	})
+	u.OnClose(func(c *websocket.Conn, err error) {
+		note(func(l *cbLog) {
+			if l.inMsg > 0 && l.overlap == "" {
+				l.overlap = "close callback entered while a message callback was running"
+			}
+			if l.inOpen && l.early == "" {
+				l.early = "close callback entered before the open callback had returned"
+			}
+			l.closes++
+			l.ev = append(l.ev, "close")
+		})
+	})
+	return u
 }
 
 func (w *world) nOpens() int {
@@ -691,7 +777,7 @@ func (w *world) settleInq(c *conn) {
 			same = 0
 		}
 		last = n
-		time.Sleep(2 * time.Millisecond)
+		Nap(2 * time.Millisecond)
 	}
 	if last < bigLen {
 		w.res.count("backpressure_engaged", 1)
@@ -818,6 +904,7 @@ func (w *world) stillOpen(c *conn, why string) {
 	if !c.cliOpen || !c.open {
 		return
 	}
+	atomic.AddInt64(&ParkedNominal, int64(time.Millisecond))
 	_ = c.cli.SetReadDeadline(time.Now().Add(time.Millisecond))
 	b, err := c.br.Peek(1)
 	if err == nil {
@@ -992,10 +1079,44 @@ func readFrame(br *bufio.Reader) (op byte, fin bool, payload []byte, err error) 
 	return
 }
 
+func (w *world) sentMsg(c *conn, msgs ...[]byte) {
+	w.mu.Lock()
+	l := w.cbOf(c.id)
+	for _, m := range msgs {
+		l.sent = append(l.sent, string(m))
+	}
+	w.mu.Unlock()
+}
+
+// readEcho reads the echo of one text message.
+func (w *world) readEcho(c *conn, msg []byte) bool {
+	_ = c.cli.SetReadDeadline(time.Now().Add(w.caps.Step))
+	op, fin, pl, err := readFrame(c.br)
+	switch {
+	case err != nil && isTimeout(err):
+		w.capHit("echo of a WebSocket message")
+		w.obs("other", "ws-echo-missing"+qual(c), "c%d: no echo of %q within %v", c.id, msg, w.caps.Step)
+		w.dead = true
+		return false
+	case err != nil:
+		w.obs("other", "ws-echo-failed"+qual(c), "c%d: reading the echo of %q failed: %v", c.id, msg, err)
+		if isEnd(err) {
+			w.peerSawEnd(c)
+		}
+		w.dead = true
+		return false
+	case op != 1 || !fin || !bytes.Equal(pl, msg):
+		w.obs("other", "ws-echo-wrong"+qual(c), "c%d: sent %q, got opcode %d fin %v payload %q", c.id, msg, op, fin, short(pl))
+	default:
+		w.res.count("ws_echoes", 1)
+	}
+	return true
+}
+
 func (w *world) doWS(c *conn, kind string) {
 	switch kind {
 	case "ws":
-		req := "GET /ws HTTP/1.1\r\nHost: h\r\nUpgrade: websocket\r\nConnection: Upgrade\r\nSec-WebSocket-Key: " + wsKey + "\r\nSec-WebSocket-Version: 13\r\n\r\n"
+		req := fmt.Sprintf("GET /ws HTTP/1.1\r\nHost: h\r\nX-Conn: %d\r\nUpgrade: websocket\r\nConnection: Upgrade\r\nSec-WebSocket-Key: %s\r\nSec-WebSocket-Version: 13\r\n\r\n", c.id, wsKey)
 		nOpen := w.nOpens()
 		if !w.write(c, []byte(req)) {
 			return
@@ -1026,6 +1147,7 @@ func (w *world) doWS(c *conn, kind string) {
 			return
 		}
 		c.state = "ws"
+		c.upgraded = true
 		w.res.count("ws_upgrades", 1)
 		// a blocking connection of static type *net.TCPConn is transferred to the poller
 		if w.c.Cfg.Transfer && w.c.Cfg.TCP && c.half == "A" {
@@ -1038,30 +1160,59 @@ func (w *world) doWS(c *conn, kind string) {
 			w.res.count("transfers", 1)
 			w.logf("c%d transferred to the poller", c.id)
 		}
-	case "wsmsg":
-		msg := []byte(fmt.Sprintf("c%dm%d", c.id, c.nmsg))
-		c.nmsg++
-		if !w.write(c, clientFrame(1, msg)) {
+	case "wsburst":
+		m1 := []byte(fmt.Sprintf("c%dm%d", c.id, c.nmsg))
+		m2 := []byte(fmt.Sprintf("c%dm%d", c.id, c.nmsg+1))
+		c.nmsg += 2
+		w.sentMsg(c, m1, m2)
+		if !w.write(c, append(clientFrame(1, m1), clientFrame(1, m2)...)) {
+			return
+		}
+		for _, msg := range [][]byte{m1, m2} {
+			if !w.readEcho(c, msg) {
+				return
+			}
+		}
+	case "wsping":
+		if !w.write(c, clientFrame(9, []byte("pi"))) {
 			return
 		}
 		_ = c.cli.SetReadDeadline(time.Now().Add(w.caps.Step))
-		op, fin, pl, err := readFrame(c.br)
+		op, _, pl, err := readFrame(c.br)
 		switch {
 		case err != nil && isTimeout(err):
-			w.capHit("echo of a WebSocket message")
-			w.obs("other", "ws-echo-missing"+qual(c), "c%d: no echo of %q within %v", c.id, msg, w.caps.Step)
+			w.capHit("pong")
 			w.dead = true
 		case err != nil:
-			w.obs("other", "ws-echo-failed"+qual(c), "c%d: reading the echo of %q failed: %v", c.id, msg, err)
+			w.obs("other", "ws-pong-failed"+qual(c), "c%d: reading the pong failed: %v", c.id, err)
 			if isEnd(err) {
 				w.peerSawEnd(c)
 			}
 			w.dead = true
-		case op != 1 || !fin || !bytes.Equal(pl, msg):
-			w.obs("other", "ws-echo-wrong"+qual(c), "c%d: sent %q, got opcode %d fin %v payload %q", c.id, msg, op, fin, short(pl))
+		case op != 10 || string(pl) != "pi":
+			w.obs("other", "ws-pong-wrong"+qual(c), "c%d: ping answered by opcode %d payload %q", c.id, op, short(pl))
 		default:
-			w.res.count("ws_echoes", 1)
+			w.res.count("ws_pongs", 1)
 		}
+	case "wssrvclose":
+		msg := []byte(fmt.Sprintf("close-me c%d", c.id))
+		w.sentMsg(c, msg)
+		if !w.write(c, clientFrame(1, msg)) {
+			return
+		}
+		if !w.expectEnd(c, "the message handler closed the connection from the server side", "other", "ws-not-closed-by-handler-close"+qual(c), false) {
+			w.dead = true
+		} else {
+			w.res.count("ws_server_side_closes", 1)
+		}
+	case "wsmsg":
+		msg := []byte(fmt.Sprintf("c%dm%d", c.id, c.nmsg))
+		c.nmsg++
+		w.sentMsg(c, msg)
+		if !w.write(c, clientFrame(1, msg)) {
+			return
+		}
+		w.readEcho(c, msg)
 	case "wsclose":
 		if !w.write(c, clientFrame(8, []byte{0x03, 0xe8})) {
 			return
@@ -1130,6 +1281,7 @@ func (w *world) doPeer(c *conn, kind string) {
 				}
 				return
 			case <-tick.C:
+				atomic.AddInt64(&ParkedNominal, int64(w.window()/4))
 				if w.engine.VerifOnline() == want {
 					streak++
 				} else {
@@ -1198,13 +1350,13 @@ func (w *world) window() time.Duration {
 // ("" : not opened yet, "closed", "http", "partial", "ws", "stalled").
 func Enabled(state, a string) bool {
 	switch a {
-	case "open":
+	case "open", "wsopen":
 		return state == ""
 	case "ka", "v10", "cl", "big", "bigcl", "post", "pipe", "pipecl", "partial", "ws", "bigstall":
 		return state == "http"
 	case "finish":
 		return state == "partial"
-	case "wsmsg", "wsclose":
+	case "wsmsg", "wsclose", "wsburst", "wsping", "wssrvclose":
 		return state == "ws"
 	case "pclose":
 		return state == "http" || state == "partial" || state == "ws" || state == "stalled"
@@ -1219,7 +1371,9 @@ func After(state, a string) string {
 	switch a {
 	case "open":
 		return "http"
-	case "v10", "cl", "bigcl", "pipecl", "wsclose", "pclose", "phalf":
+	case "wsopen":
+		return "ws"
+	case "v10", "cl", "bigcl", "pipecl", "wsclose", "wssrvclose", "pclose", "phalf":
 		return "closed"
 	case "partial":
 		return "partial"
@@ -1238,6 +1392,13 @@ func (w *world) step(e Ev) {
 		w.open(e.C, false)
 		return
 	}
+	if e.A == "wsopen" {
+		w.open(e.C, false)
+		if c := w.conns[e.C]; c != nil && !w.dead {
+			w.doWS(c, "ws")
+		}
+		return
+	}
 	c := w.conns[e.C]
 	if c == nil || !c.open || !c.cliOpen {
 		w.logf("skip %s%d: connection not open any more", e.A, e.C)
@@ -1245,7 +1406,7 @@ func (w *world) step(e Ev) {
 		return
 	}
 	switch e.A {
-	case "ws", "wsmsg", "wsclose":
+	case "ws", "wsmsg", "wsclose", "wsburst", "wsping", "wssrvclose":
 		w.doWS(c, e.A)
 	case "pclose", "phalf":
 		w.doPeer(c, e.A)
@@ -1306,6 +1467,9 @@ func (w *world) end() {
 		}
 		w.dead = false
 		w.quiet("all peers closed")
+		if w.caps.Own == "c14" {
+			w.judgeWS()
+		}
 	}
 	returned := false
 	switch kind {
@@ -1315,6 +1479,7 @@ func (w *world) end() {
 		t0 := time.Now()
 		returned, err = w.callStop("shutdown", func() error { return w.engine.Shutdown(ctx) })
 		cancel()
+		atomic.AddInt64(&ParkedNominal, int64(200*time.Millisecond)) // nbhttp's Shutdown polls with a 200 ms ticker
 		if returned && err != nil {
 			w.obs("c18", "shutdown-live-context-returns-error", "Shutdown(ctx) with a live context (deadline %v away) returned %v after %v; engine.Online() = %d; the core engine was not stopped", w.caps.Ctx, err, time.Since(t0).Round(time.Millisecond), w.engine.VerifOnline())
 			// do what the caller would have to do, so that the rest of the process stays usable
@@ -1331,6 +1496,100 @@ func (w *world) end() {
 	w.logf("%s returned=%v", kind, returned)
 	w.reclaim(kind, returned)
 	w.logf("reclaim checked")
+}
+
+// judgeWS is C14's oracle, evaluated while the engine is still running, once every connection of
+// the history is gone from its peer's point of view. For every connection whose upgrade succeeded
+// (the peer read the 101): the open callback had returned before any message callback was entered,
+// message callbacks ran one at a time, in wire order, with the payloads the peer sent, and the
+// close callback ran exactly once, after them.
+//
+// "Exactly once" needs a moment at which a missing close callback is final. Both teardown paths of
+// nbhttp run the WebSocket connection's CloseAndClean (which calls the close callback
+// synchronously) BEFORE they remove the connection from engine.conns (readConnBlocking's deferred
+// clean-up; the core engine's OnClose job). So the harness waits (observable condition, generous
+// cap, 'incomplete' when it expires) until the engine's table is empty; a count other than 1 is
+// then confirmed by the goroutine evidence (every engine goroutine parked - pollers in
+// epoll_wait - in 5 consecutive samples) before it is reported.
+func (w *world) judgeWS() {
+	if !WaitFor(w.caps.Quiet, func() bool { return w.engine.VerifOnline() == 0 }) {
+		w.capHit(fmt.Sprintf("engine.Online() stays %d after every peer is gone", w.engine.VerifOnline()))
+		return
+	}
+	counts := func() (bad bool) {
+		w.mu.Lock()
+		defer w.mu.Unlock()
+		for _, c := range w.all {
+			if c.upgraded && w.cbOf(c.id).closes != 1 {
+				bad = true
+			}
+		}
+		return
+	}
+	if counts() {
+		parked := 0
+		for i := 0; i < 3000 && parked < 5; i++ {
+			all := true
+			for _, g := range w.gbase.Extra() {
+				if !Blocked(g) {
+					all = false
+				}
+			}
+			if all {
+				parked++
+			} else {
+				parked = 0
+			}
+			Nap(w.window() / 4)
+			if !counts() {
+				break
+			}
+		}
+	}
+	w.mu.Lock()
+	defer w.mu.Unlock()
+	for _, c := range w.all {
+		if !c.upgraded {
+			continue
+		}
+		l := w.cbOf(c.id)
+		q := " half=" + c.half
+		trace := strings.Join(l.ev, " ")
+		add := func(sig, format string, a ...interface{}) {
+			w.res.Obs = append(w.res.Obs, Obs{"c14", sig + q, fmt.Sprintf("c%d (served by half %s): ", c.id, c.half) + fmt.Sprintf(format, a...) + "; callback log: [" + trace + "]"})
+		}
+		w.res.Counters["ws_connections_judged"]++
+		switch {
+		case l.closes == 0:
+			add("close-callback-missing", "the connection is gone from its peer's point of view (ended by the %s), the engine has dropped it from its table and every engine goroutine is parked, but the close callback never ran", c.endedBy)
+		case l.closes > 1:
+			add("close-callback-duplicated", "the close callback ran %d times", l.closes)
+		}
+		if l.early != "" {
+			add("callback-before-open-completed", "%s", l.early)
+		}
+		if l.overlap != "" {
+			add("callbacks-overlap", "%s", l.overlap)
+		}
+		if l.late != "" {
+			add("callback-after-close", "%s", l.late)
+		}
+		if l.early == "" && (len(l.ev) < 2 || l.ev[0] != "open<" || l.ev[1] != "open>") {
+			add("open-callback-missing-or-late", "the open callback did not run first")
+		}
+		var got []string
+		for _, e := range l.ev {
+			if strings.HasPrefix(e, "msg<") {
+				got = append(got, e[4:])
+			}
+		}
+		// every data message was answered (echo read, or end of stream after close-me) before the
+		// history went on, so all of them must have reached the message callback, in wire order
+		if !w.dead && strings.Join(got, "|") != strings.Join(l.sent, "|") {
+			add("message-callbacks-order-or-payload", "the peer sent %q, the message callback got %q", l.sent, got)
+		}
+		w.res.Counters["ws_message_callbacks"] += len(got)
+	}
 }
 
 // reclaim: after the stopping call returned, (1) every connection the engine manages is closed
@@ -1394,7 +1653,7 @@ func (w *world) reclaim(kind string, returned bool) {
 		if stable >= 5 || time.Since(t0) > w.caps.Quiet {
 			break
 		}
-		time.Sleep(w.window() / 4)
+		Nap(w.window() / 4)
 	}
 	if len(fds) > 0 {
 		seen := map[string]bool{}
@@ -1421,7 +1680,7 @@ func (w *world) reclaim(kind string, returned bool) {
 				gone := false
 				for i := 0; i < 40 && !gone; i++ {
 					runtime.GC()
-					time.Sleep(5 * time.Millisecond)
+					Nap(5 * time.Millisecond)
 					gone = true
 					for _, x := range FDExtra(w.fdbase) {
 						if x == e {
@@ -1524,6 +1783,7 @@ func (w *world) awaitClosedByEngine(c *conn, kind string) {
 			w.notClosed(c, kind, left, fmt.Sprintf("for %v", w.caps.Quiet))
 			return
 		case <-tick.C:
+			atomic.AddInt64(&ParkedNominal, int64(w.window()/4))
 			left = w.gbase.Extra()
 			all := true
 			for _, g := range left {
@@ -1584,7 +1844,7 @@ func Run(c Case, caps Caps) *Result {
 		}
 	})
 	res := &Result{Counters: map[string]int{}}
-	w := &world{t0: time.Now(), c: c, caps: caps, res: res, conns: map[int]*conn{}, handled: map[string]int{}, trace: os.Getenv("VERIF_BLK_TRACE") != ""}
+	w := &world{cb: map[int]*cbLog{}, t0: time.Now(), c: c, caps: caps, res: res, conns: map[int]*conn{}, handled: map[string]int{}, trace: os.Getenv("VERIF_BLK_TRACE") != ""}
 	if w.trace {
 		fmt.Fprintf(os.Stderr, "CASE %s\n", c)
 	}
